@@ -27,7 +27,7 @@ ASSUMPTIONS = ["'always terminates' is checked as bounded progress: 1500 outer s
                "the best-weights rule is replayed as: best = score(initial fit); per step: if score >= best and all features "
                "selected: best = score; then if score >= keep_threshold*best: best weights = that step's weights"]
 EVAL_COUNTER = "paths"
-REQUIRED = {"quick": {"paths": 250, "paths_with_steps": 150, "steps_replayed": 1500, "best_weights_compared": 200,
+REQUIRED = {"quick": {"paths_with_alpha_below_1e-8": 10, "paths": 250, "paths_with_steps": 150, "steps_replayed": 1500, "best_weights_compared": 200,
                       "restorations_checked": 80, "nan_faults_injected": 20, "differential_pairs": 15,
                       "warnings_expected_and_seen": 30, "early_stops_replayed": 100},
             "thorough": {"paths": 4000, "steps_replayed": 30000, "nan_faults_injected": 400}}
@@ -51,6 +51,7 @@ class State(_train.Listener):
         self.ctx = ctx
         self.tap = _train.TrainTap(ctx, self)
         self.patcher = Patcher()
+        self.orig_val = bs.compute_val_score
         self.patcher.rebind(bs.compute_val_score, self._wrap_val(bs.compute_val_score))
         self.reset(None)
 
@@ -63,6 +64,7 @@ class State(_train.Listener):
         self.fit_alphas = set()
         self.in_fit = False
         self.steps_started = 0
+        self.v0_ref = None
 
     def close(self):
         self.patcher.restore()
@@ -75,6 +77,22 @@ class State(_train.Listener):
     def fit_exit(self, model, X, y, kind, exc):
         if model is self.model and kind == "fit":
             self.in_fit = False
+            if exc is None and self.v0_ref is None and not self.events and float(model.alpha) == 0.0:
+                # the initial unpenalised fit of this path has just ended: its validation score, computed here by the
+                # monitor with the library's own (unwrapped) scoring function, whatever way the path obtains its own
+                try:
+                    before = [w.copy() for w in model._get_weights()]
+                    Xv = np.asarray(X)
+                    bs_ = model.batch_size if model.batch_size is not None else len(Xv)
+                    score, l1 = self.orig_val(model, Xv, y, bs_, model.get_gemini())
+                    Wsel = model.W_skip_ if hasattr(model, "W_skip_") else model.W_
+                    if all(np.array_equal(a, b, equal_nan=True) for a, b in zip(before, model._get_weights())):
+                        self.v0_ref = {"score": score, "l1": l1, "snap": before, "alpha": 0.0, "upd": 0,
+                                       "nsel": int(sum(bool(np.any(r != 0)) for r in Wsel)),
+                                       "pen": float(np.linalg.norm(Wsel, axis=1, ord=2).sum())}
+                except Exception:
+                    self.v0_ref = None
+                self.updates = 0
 
     def step_before(self, model, opt, params, grads):
         if model is self.model:
@@ -203,26 +221,48 @@ def check_log(ctx, st, est, X, y, params, args, ret, exc, warns, alpha0, nan_at,
     if not (len(geminis) == len(pens) == len(nfeat) == T):
         ctx.violation("histories", "histories-length-differ", observed=[len(geminis), len(pens), len(alphas), len(nfeat)], expected="equal")
         return
-    if not ev:
-        ctx.violation("log", "no-validation-event", observed=0, expected=">= 1")
+    # ---- the log: what the scoring hook saw, cut into the initial score and the outer steps ---------------------
+    # (the hook sits on compute_val_score, the function the property names; when and how often the path calls it is the
+    # path's own business: steps are told apart by the model's alpha at each event, a start-of-step score is used when
+    # there is one, and the initial score is the one the monitor computed itself at the end of the initial fit)
+    V0 = st.v0_ref
+    idx = 0
+    if ev and ev[0]["alpha"] == 0.0:
+        ctx.count("initial_score_events")
+        if V0 is not None and not (ev[0]["score"] == V0["score"] or (ev[0]["score"] != ev[0]["score"] and V0["score"] != V0["score"])) \
+                and _same(ev[0]["snap"], V0["snap"]):
+            ctx.violation("initial-fit", "initial-score-not-the-validation-score-of-the-initial-fit",
+                          observed={"seen_by_hook": ev[0]["score"], "recomputed": V0["score"]}, expected="equal")
+            return
+        V0 = ev[0]
+        idx = 1
+    elif V0 is not None:
+        ctx.count("initial_score_event_absent")
+    if V0 is None:
+        ctx.count("path_log_unusable")
         return
     # ---- initial fit ------------------------------------------------------------------------------------
     if st.fit_alphas - {0.0}:
         ctx.violation("initial-fit", "initial-fit-not-unpenalised", observed=sorted(st.fit_alphas), expected=[0.0])
-    V0 = ev[0]
     # ---- segmentation -----------------------------------------------------------------------------------
-    steps, idx = [], 1
+    steps, regular = [], True
     while idx < len(ev):
-        S = ev[idx]
-        if S["upd"] != 0:
-            ctx.violation("log", "step-without-start-validation", observed={"event": idx}, expected="start-of-step validation score")
-            return
-        idx += 1
+        a_step = ev[idx]["alpha"]
+        S = None
+        while idx < len(ev) and ev[idx]["alpha"] == a_step and ev[idx]["upd"] == 0:
+            S = ev[idx]
+            idx += 1
         E = []
-        while idx < len(ev) and ev[idx]["upd"] > 0:
+        while idx < len(ev) and ev[idx]["alpha"] == a_step:
+            if ev[idx]["upd"] == 0:
+                regular = False          # a score taken twice in a row inside a step: not today's shape
             E.append(ev[idx])
             idx += 1
+        if S is None:
+            regular = False              # no start-of-step score: the early-stopping baseline cannot be replayed
         steps.append((S, E))
+    if not regular:
+        ctx.count("paths_with_unexpected_log_shape")
     aborted = bool(steps and steps[-1][1] and math.isnan(steps[-1][1][-1]["score"]))
     if aborted:
         ctx.count("aborted_on_nan")
@@ -242,9 +282,9 @@ def check_log(ctx, st, est, X, y, params, args, ret, exc, warns, alpha0, nan_at,
                                                                           "multiplier": mult}, expected=a)
             return
         S, E = steps[k]
-        if S["alpha"] != a or any(e["alpha"] != a for e in E):
+        if (S is not None and S["alpha"] != a) or any(e["alpha"] != a for e in E):
             ctx.violation("alphas", "model-alpha-differs-from-history-during-step",
-                          observed={"k": k, "model_alpha": S["alpha"], "history": a}, expected="equal")
+                          observed={"k": k, "model_alpha": (S or E[0])["alpha"], "history": a}, expected="equal")
             return
         a = a * mult
     # ---- per-step records -------------------------------------------------------------------------------
@@ -264,6 +304,8 @@ def check_log(ctx, st, est, X, y, params, args, ret, exc, warns, alpha0, nan_at,
                               expected={"n_features": last["nsel"], "penalty": last["pen"], "gemini": last["score"]})
                 return
         # early stopping replay
+        if not regular:
+            continue
         vs, vl, patience = S["score"], S["l1"], 0
         for i, e in enumerate(E):
             if i >= max_iter or patience >= max_pat:
@@ -324,7 +366,7 @@ def check_log(ctx, st, est, X, y, params, args, ret, exc, warns, alpha0, nan_at,
             diff = [j for j, (x, z) in enumerate(zip(now, best_w)) if not np.array_equal(x, z, equal_nan=True)]
             ctx.violation("restoration", "estimator-not-restored-to-best-weights", observed={"arrays_differing": diff}, expected="all equal")
     elif not args.get("restore_best_weights", True):
-        if not _same(now, ev[-1]["snap"]):
+        if ev and not _same(now, ev[-1]["snap"]):
             ctx.violation("restoration", "weights-changed-although-restore-off", observed="differs from last step", expected="last step's weights")
     if T:
         ctx.distinct(name, str(sorted(args.items())), tuple(alphas[:5]), tuple(nfeat), tuple(round(g, 12) if g == g else "nan" for g in geminis[:8]))
@@ -348,9 +390,33 @@ def make_case(seed, i):
         args["alpha_multiplier"] = float([2.0, 3.0, 1.0, 0.5][int(rng.integers(0, 4))])   # keep runs short (1.0/0.5 -> default 1.05 is long)
         if args["alpha_multiplier"] <= 1:
             params["alpha"] = 0.05
+    if rng.random() < 0.12:
+        # a strictly positive alpha far below every absolute tolerance (1e-8, 1e-12): it is the model's alpha and the path
+        # starts there - with a large multiplier, so that the run stays short
+        params["alpha"] = float([1e-9, 1e-10, 1e-12, 1e-15][int(rng.integers(0, 4))])
+        args["alpha_multiplier"] = float([4.0, 10.0, 30.0][int(rng.integers(0, 3))])
     args["min_features"] = int(rng.integers(-1, d + 2))
     rk = rng.random()
     args["keep_threshold"] = float(rng.uniform(0, 1)) if rk < 0.75 else float([-0.5, 1.5, 0.0, 1.0][int(rng.integers(0, 4))])
+    if rng.random() < 0.15:
+        # an under-trained initial fit followed by a strong penalty: the score keeps rising while the first features are
+        # already being dropped - the steps in which "best score with all features" and "score reached" come apart
+        params["alpha"] = float([1.0, 5.0, 20.0, 50.0][int(rng.integers(0, 4))])
+        params["max_iter"] = int(rng.integers(8, 25))
+        params["learning_rate"] = float(10 ** rng.uniform(-3, -2))
+        params["batch_size"] = None
+        args["alpha_multiplier"] = float([1.5, 2.0][int(rng.integers(0, 2))])
+        args["keep_threshold"] = float(rng.uniform(0.85, 1.0))
+        args["min_features"] = int(rng.integers(1, 3))
+        if pre is None:
+            # two informative coordinates (tight blobs) and noise columns: the noise goes first, while the score still rises
+            n = int(rng.integers(40, 90))
+            centres = rng.normal(scale=3.0, size=(3, 2))
+            X = np.hstack([centres[rng.integers(0, 3, size=n)] + rng.normal(scale=0.1, size=(n, 2)),
+                           rng.normal(size=(n, int(rng.integers(2, 6))))])
+            if "groups" in params:
+                params["groups"] = None
+            y = None
     args["early_stopping_factor"] = float([0.99, 0.9, 0.5, 1.0][int(rng.integers(0, 4))])
     args["max_patience"] = int(rng.integers(1, 11))
     args["restore_best_weights"] = bool(rng.random() < 0.7)
@@ -366,6 +432,8 @@ def run_case(case, ctx, st):
         nan_at = int(rng.integers(1, 12))
     ctx.case = dict(case, estimator=name, params=params, args=args, n=len(X), d=X.shape[1], nan_at=nan_at, pre=y is not None)
     ctx.count("paths")
+    if 0 < params["alpha"] <= 1e-8:
+        ctx.count("paths_with_alpha_below_1e-8")
     a = dict(args)
     if nan_at:
         a["_nan_at"] = nan_at
